@@ -187,7 +187,7 @@ def strip_generics(c):
     if '::<' not in c: return c
     out = []; i = 0; n = len(c)
     while i < n:
-        if c.startswith('::<', i) and not c.startswith('::<impl ', i):
+        if c.startswith('::<', i):
             d = 0; j = i + 2
             while True:
                 if c[j] == '<': d += 1
@@ -195,6 +195,8 @@ def strip_generics(c):
                     d -= 1
                     if d == 0: break
                 j += 1
+            # `path::<impl T>::method` is an inherent-impl path segment (kept); `f::<impl Trait>` at the end is a generic argument (stripped)
+            if c.startswith('::<impl ', i) and c.startswith('::', j + 1): out.append(c[i:j+1])
             i = j + 1
         else: out.append(c[i]); i += 1
     return ''.join(out)
